@@ -7,6 +7,28 @@ import re
 
 HERE = os.path.dirname(os.path.dirname(os.path.abspath(__file__)))
 REMARKS = {
+ 'C17_r3': 'NOT CAUGHT, deliberately: needs a non-zero future_flags argument, which json_visit.h reserves ("Set to 0"); no call the property quantifies over passes one',
+ 'C20_r1': 'first run: MISSED (unopenable paths were nonexistent ones); json_object_from_file on a DIRECTORY (open succeeds, read fails): NULL, a message, descriptors balanced',
+ 'C20_r3': 'first run: MISSED (descriptors were always handed over at offset 0); a third of the reads start in the middle of a file, behind bytes that are no JSON',
+ 'C19_r2': 'first run: MISSED (the buffer was formatted into itself through "%s|%s" only); fmts1: sprintbuf(pb, "%s", pb->buf + k)',
+ 'C05_r3': 'an index token of 2^64+1 wrapping onto element 1: caught by C13 (and now by C12: at every sampled node an index that lands on an existing element modulo 2^32 or 2^64 must fail)',
+ 'C09_r2': 'first run: MISSED (the process-wide string hash never changed between two compared trees); a tenth of the triples rebuild one tree after switching it, a tenth of the copies are taken after switching it',
+ 'C09_r3': 'first run: missed by C09 (default copy callback only), caught by C05; a fifth of the C09 copies now go through a callback that answers 2 for every node without serializer data',
+ 'C11_r3': 'caught by C05 (delete callbacks read the node they are handed); C11 registers no callbacks on its strings',
+ 'C02_r1': 'first run: MISSED (integers were changed in place through json_object_set_int64 only); 40% of those changes now go through json_object_int_inc',
+ 'C02_r2': 'needs the numeric locale to change between two serializations in one thread: caught by C14 (a quarter of its trees are built and serialized once under "C" before the configuration is installed -- added earlier in this session, after C14_q1)',
+ 'C01_r1': 'flags wiped by json_tokener_reset: caught by C16 (one strict tokener across documents) and C04',
+ 'C01_r2': 'short reads through the descriptor API: caught by C20',
+ 'C01_r3': 'first run: MISSED, and invisible to any comparison of one parse result with the denoted value (the tree is right; its boolean nodes are shared with the parser); one text in eight is now parsed twice by ONE parser with every scalar of the first result changed in place before it is released',
+ 'C16_r2': 'first run: MISSED (one or two superfluous zeros); runs of 3..300 zeros',
+ 'C06_r1': 'first run: MISSED (no member was ever more than a few hundred slots away from its home slot); OLONGRUN: n consecutively occupied slots, every key at home, plus one key whose home is the first of them, n = 2..90000, both hash functions, keys picked by asking the library for their hashes',
+ 'C06_r2': 'an object added to itself under a name it already holds: caught by C05 (failing self-adds must release nothing)',
+ 'C08_r3': 'caught by C11 (every 5th set fails by injected fault, later sets land between the real and the claimed capacity), like C11_q1',
+ 'C15_r1': 'first run: MISSED (limits up to 12000); limits of 2^26+1, 2^27 (and 2^27+1, 2^28+1 where the allocator grants them) with documents a few thousand deep',
+ 'C15_r2': 'short reads through the descriptor API: caught by C20',
+ 'C15_r3': 'first run: MISSED (empty containers at the boundary were "[]" / "{}"); empty containers that hold a comment, default mode',
+ 'C03_r1': 'first run: MISSED (pieces were always passed with their length); when the input ends in a NUL every other partition hands its last piece over as a C string (len = -1), and 15% of the inputs are also run with their terminator appended',
+ 'C04_q3': 'a fault case (scratch-buffer growth failing, then a token that fits the capacity the buffer only claims to have): see the C08 column',
  'C02_q2': 'first run: MISSED (nothing was hung on a node after it had been changed in place); a third of the in-place mutations are now followed by json_object_set_userdata on the same node',
  'C05_q3': 'a fault case (strdup inside the removal step of a "move" whose from-name needs unescaping): caught by C08 (patch workloads over x/y, t~u, v/w); C05 injects no faults into patches',
  'C06_q1': 'needs a second thread (per-thread hash seed): caught by C18 (seed trials: every thread must hash the fixed key like the late observer, keys inserted during the race must be found from another thread)',
